@@ -8,7 +8,6 @@ func init() {
 			{Name: "introspect", Pkg: "introspection", Files: []string{"introspection/c15.go"}, Entry: "VerifIntrospect", Mode: "seq", Native: true,
 				Quick: map[string]int{"shapes": 6}, Thorough: map[string]int{"shapes": 10},
 				Reach:     []string{"malformed answer rejected", "schema reconstructed"},
-				Known:     []string{"C15-argument-default-dropped", "C15-deprecation-dropped", "C15-input-default-quoted"},
 				Functions: []string{"introspection.introspectRemoteSchema", "introspection.parseQueryerResponse", "introspection.parseType", "introspection.parseTypeRef", "introspection.parseArgList", "introspection.parseInputField", "introspection.formatSchema (gqlparser/formatter interpreted)"}},
 		},
 		Assume: []string{
